@@ -92,7 +92,7 @@ CHECKS["C16"] = dict(
           "the five message-hook call sites of _SoapClient.send/process_reply plus the document/init hooks: for "
           "plugin lists of ANY length the hook log is exactly the reached stages in the fixed order, each once per "
           "matching plugin in registration order; every stage consumes the previous stage's edits (dataflow); no "
-          "reply hooks without a reply, no unmarshalled for a fault; a hook exception reaches the caller. ~3.7k "
+          "reply hooks without a reply, no unmarshalled for a fault; a hook exception of ANY class (12 classes incl. suds.transport.TransportError, suds.WebFault, SAXParseException, a BaseException subclass) reaches the caller as the very object raised and no later hook runs (exception_class_irrelevant). ~4.5k "
           "(plugin list, settings, reply class) cases per quick run are executed on real clients with "
           "order-revealing edits and compared with the model inside Coq."),
     design="DESIGN.md §5 C16",
